@@ -28,7 +28,7 @@ ASSUMPTIONS = [
     "mask cases avoid complete positions in the open interval (-1,0), where truncation toward zero and 'outside the volume' disagree by convention",
     "known finding (known_findings.json): out-of-bounds removal never tests the lower faces; cases whose result equals 'upper faces only' are counted under that signature, any other deviation is a violation",
 ]
-BUDGET = {"quick": {"examples": 1600, "seconds": 85}, "thorough": {"examples": 6000, "seconds": 540}}
+BUDGET = {"quick": {"examples": 2400, "seconds": 85}, "thorough": {"examples": 6000, "seconds": 540}}
 
 C = oracle.MOTL_COLUMNS
 IX = {c: i for i, c in enumerate(C)}
